@@ -21,3 +21,6 @@ pub struct ExParseIntError(core::num::ParseIntError);
 pub uninterp spec fn radix_u8(s: Seq<char>, radix: u32) -> Option<u8>;
 pub assume_specification [u8::from_str_radix] (src: &str, radix: u32) -> (r: core::result::Result<u8, core::num::ParseIntError>)
     ensures (r is Ok) == (radix_u8(src@, radix) is Some), r is Ok ==> r->Ok_0 == radix_u8(src@, radix)->0;
+// `c.to_string()` for a char is the one-char string
+#[verifier::external_body]
+pub fn __char_to_string(c: char) -> (r: String) ensures r@ == seq![c] { c.to_string() }
